@@ -114,7 +114,7 @@ func runPayloaderSeq(kind int, calls []Tok) Outcome {
 		if !intact {
 			fail("call %d: input modified", step)
 		}
-		if !fresh {
+		if !fresh && (kind == 2 || currentProp != "C16") {
 			fail("call %d: fragment aliases the input", step)
 		}
 		check(step, mtu, in, frags)
@@ -125,7 +125,7 @@ func runPayloaderSeq(kind int, calls []Tok) Outcome {
 		earlier = append(earlier, k)
 		for e, ke := range earlier {
 			for i := range ke.frags {
-				if !bytes.Equal(ke.frags[i], ke.snap[i]) {
+				if !bytes.Equal(ke.frags[i], ke.snap[i]) && (kind == 2 || currentProp != "C16") {
 					fail("call %d changed fragment %d returned by call %d (was %x, is %x)", step, i, e, ke.snap[i], ke.frags[i])
 				}
 			}
@@ -149,7 +149,7 @@ func runPayloaderSeq(kind int, calls []Tok) Outcome {
 				}
 				if len(out) != 1 || !bytes.Equal(out[0], want) {
 					fail("fragment of call %d fed back in (%d bytes, MTU %d): result is not one fragment equal to the input", e, len(want), len(want)+3)
-				} else if overlaps(out[0], in) {
+				} else if overlaps(out[0], in) && (kind == 2 || currentProp != "C16") {
 					fail("fragment of call %d fed back in: the result aliases its input", e)
 				}
 			}
@@ -380,7 +380,8 @@ func init() {
 			if !intact {
 				o.Fail = "input modified"
 			}
-			if !fresh {
+			if !fresh && (op == 1603 || currentProp != "C16") {
+				// C16 asks "not aliasing the input" of Opus; for G711 and G722 it is C08's clause
 				o.Fail = "fragment aliases the input"
 			}
 			if op == 1603 {
